@@ -9,10 +9,23 @@
 3. property monitor on the implementation alone: the whole Reader behind a mock Decompressor
    that hands out caller-chosen pieces; every chunking of the same bytes (valid files and every
    truncation) must give the identical header+objects digest or the identical error.
+4. long records (`_long_records`): the same three things for records that are LONGER than every
+   buffer / piece size / plausible limit of the code: OPL lines of 64 KiB … 4 MiB (around 2^16,
+   2^20, 2^20+1, 2^21), PBF blobs, o5m datasets and XML elements of 1 … 4 MiB, delivered in one
+   piece and in pieces of 7, 100, 4096, 10240, 65536, 1000000, 2^20 bytes (+ shifted grids), so
+   that the record spans 1, 2, 3, … 600000 pieces; also through a FIFO (64 KiB pipe reads) and
+   as a plain file (default 1 MiB reads).  Files are synthesized deterministically from a small
+   spec (`python3 tools/props/c06.py regen '<spec>' <out>` rebuilds the bytes of a replay) and
+   handed to harness and model by path (`@file`), results are compared as (length, FNV-64) digests.
 """
 import binascii
+import json
 import os
+import re
+import sys
 
+if __name__ == '__main__':
+    sys.path.insert(0, os.path.dirname(os.path.dirname(os.path.abspath(__file__))))
 import vlib
 
 
@@ -128,10 +141,21 @@ def run(ctx):
     ctx.rule = ('each case = (format, byte stream, chunking); streams: generated valid files in 4 formats (real Writer for OPL/XML/PBF, '
                 'independent o5m encoder), every truncation of the small ones, hand-built PBF framings (indexdata, wrong/prefix types, '
                 'oversize headers, zero/negative datasize), OPL line soups; chunkings: none, fixed sizes 1,2,3,5,7, every single cut, '
-                'every pair of cuts for short streams, random multi-cuts. distinct = distinct op lines; a case is non-trivial if it has at least one cut')
+                'every pair of cuts for short streams, random multi-cuts. distinct = distinct op lines; a case is non-trivial if it has at least one cut. '
+                'LONG RECORDS (ops long-*): synthesized files with one record of 64 KiB … 5 MiB (OPL way lines of exactly 2^16, 2^20, 2^20+1, 2^21, ~1.3 MiB, … bytes at '
+                'varying offsets, terminated by LF / CR / CRLF / EOF; o5m way datasets; PBF blobs and XML elements written by the real Writer; one truncation inside the '
+                'record) x segmentations: one piece, fixed pieces of 7, 100, 4096, 10240, 65536, 1000000, 2^20 bytes, shifted grids %k+o, a boundary exactly at / one byte '
+                'into the record, 2-3 explicit cuts inside the record, a FIFO (64 KiB pipe reads), the plain file (default 1 MiB reads); histogram long:<fmt>:record=<length '
+                'class>:pieces=<number of pieces the record spans>; results compared as (length, FNV-64) digests: real line_by_line / PBF framing / o5m window vs the '
+                'linear-time twins of the model (proved equal to the specified functions), every segmentation vs the one-piece run, OPL lines vs a Python split oracle')
     ctx.assumptions += ['expat: XML_Parse is chunk-invariant (the XML clause is proved for the feed loop only: same bytes, one final call)',
                         'input contract of C09: chunks arrive in order, non-empty, followed by one end marker']
 
+    ex = read_exits(ctx)
+    if ex is not None:
+        write_exits_lean(ex)
+    ctx.trusted.append('the exits table of the carry-over functions (Generated/C06Exits.lean) is read off the source text by anchored '
+                       'regular expressions (function signature, brace matching, `throw`, max_* identifiers, numeric literals)')
     ctx.proof_stage(exes=['model_c06'])
 
     hbin, err = vlib.build_cpp('c06', ['c06.cpp'], flags=['-fno-access-control'])
@@ -142,6 +166,20 @@ def run(ctx):
     scratch = os.path.join(vlib.BUILD, 'c06-%d' % os.getpid())
     os.makedirs(scratch, exist_ok=True)
     try:
+        if getattr(ctx, 'replay', None):
+            # replay mode: re-run the op lines of a replay file on the real code (long-record replays carry the
+            # spec of the file instead of its bytes: the file is rebuilt first)
+            with open(ctx.replay) as f:
+                rp = json.load(f)
+            rops = list(rp.get('ops', []))
+            if 'spec' in rp:
+                path = os.path.join(scratch, 'replay.' + rp['spec']['fmt'])
+                write_long(rp['spec'], path, hbin, scratch)
+                rops = [o.replace('<file>', path) for o in rops]
+            rc, out, se = ctx.run_lines([hbin, scratch], '\n'.join(rops) + '\n')
+            for o, r in zip(rops, out):
+                vlib.log('replay `%s` -> impl: %s' % (o[:200], r[:300]))
+            return
         _run(ctx, rng, quick, hbin, scratch)
     finally:
         for f in os.listdir(scratch):
@@ -343,3 +381,552 @@ def _run(ctx, rng, quick, hbin, scratch):
                           {'kind': 'broken-correspondence', 'stream': 'c06-model-vs-impl', 'first': other[:5]}, found_input=False)
     else:
         ctx.violation('model-driver-build', 'model driver does not build', {'kind': 'broken-correspondence'}, found_input=False)
+
+    _long_records(ctx, rng, quick, hbin, scratch)
+
+
+# ==================================================================== exits of the carry-over code, read off the source
+# (-> lean/Osmium/Generated/C06Exits.lean; `carry_over_exits_modelled` in Props/C06.lean compares it with the
+# outcomes the model has).  The carry-over functions are outside the subset of tools/cxx2lean.py (std::string
+# locals with find_first_of / append / assign / erase, a pointer into the string, a template worker), so they are
+# tied by execution (correspondence streams) — this table adds a static tie for what execution on ordinary inputs
+# cannot see: a NEW way out of the function (a `throw`), a NEW named limit (`max_…`) or a NEW numeric constant
+# (anything but 0 and 1) in code whose model has no length-dependent branch.
+CARRY_OVER = [
+    # (header, name in the table, regex of the signature up to and including the opening brace)
+    ('io/detail/opl_input_format.hpp', 'line_by_line', r'void\s+line_by_line\s*\(\s*T\s*&\s*\w+\s*\)\s*\{'),
+    ('io/detail/pbf_input_format.hpp', 'PBFParser::ensure_available_in_input_queue', r'void\s+ensure_available_in_input_queue\s*\(\s*(?:std::)?size_t\s+\w+\s*\)\s*\{'),
+    ('io/detail/pbf_input_format.hpp', 'PBFParser::pop_from_input_queue', r'void\s+pop_from_input_queue\s*\(\s*(?:std::)?size_t\s+\w+\s*\)\s*\{'),
+    ('io/detail/pbf_input_format.hpp', 'PBFParser::read_blob_header_size_from_file', r'uint32_t\s+read_blob_header_size_from_file\s*\(\s*\)\s*\{'),
+    ('io/detail/pbf_input_format.hpp', 'PBFParser::check_type_and_get_blob_size', r'size_t\s+check_type_and_get_blob_size\s*\(\s*const\s+char\s*\*\s*\w+\s*\)\s*\{'),
+    ('io/detail/pbf_input_format.hpp', 'PBFParser::read_from_input_queue_with_check', r'std::string\s+read_from_input_queue_with_check\s*\(\s*(?:std::)?size_t\s+\w+\s*\)\s*\{'),
+    ('io/detail/o5m_input_format.hpp', 'O5mParser::ensure_bytes_available', r'bool\s+ensure_bytes_available\s*\(\s*(?:std::)?size_t\s+\w+\s*\)\s*\{'),
+    ('io/detail/xml_input_format.hpp', 'XMLParser::run', r'void\s+run\s*\(\s*\)\s*(?:override|final)\s*\{'),
+]
+
+
+def strip_cpp_comments(text):
+    text = re.sub(r'/\*.*?\*/', ' ', text, flags=re.S)
+    return re.sub(r'//[^\n]*', '', text)
+
+
+def func_body(text, sig_re):
+    ms = list(re.finditer(sig_re, text))
+    if len(ms) != 1:
+        return None
+    i = ms[0].end() - 1
+    depth = 0
+    for j in range(i, len(text)):
+        if text[j] == '{':
+            depth += 1
+        elif text[j] == '}':
+            depth -= 1
+            if depth == 0:
+                return text[i + 1:j]
+    return None
+
+
+def read_exits(ctx):
+    """-> (throws, limits, constants): lists of (function, text), or None (refused)"""
+    inc = os.path.join(vlib.REPO, 'include', 'osmium')
+    throws, limits, consts = [], [], []
+    missing = []
+    for rel, name, sig in CARRY_OVER:
+        try:
+            with open(os.path.join(inc, rel)) as f:
+                text = strip_cpp_comments(f.read())
+        except OSError:
+            text = ''
+        body = func_body(text, sig)
+        if body is None:
+            missing.append('%s:%s' % (rel, name))
+            continue
+        nostr = re.sub(r'"(?:[^"\\]|\\.)*"', '""', body)
+        nostr = re.sub(r"'(?:[^'\\]|\\.)*'", "' '", nostr)
+        for m in re.finditer(r'\bthrow\b\s*([\w:]*)', nostr):
+            throws.append((name, m.group(1) or '<rethrow>'))
+        for m in re.finditer(r'\b(max_\w+|\w+_max|\w*limit\w*)\b', nostr):
+            if (name, m.group(1)) not in limits:
+                limits.append((name, m.group(1)))
+        for m in re.finditer(r'(?<![\w.])(0[xX][0-9a-fA-F]+|\d+)(?:[uUlL]*)\b', nostr):
+            v = int(m.group(1), 0)
+            if v > 1:
+                consts.append((name, str(v)))
+    if missing:
+        ctx.violation('translator-failed:c06-exits', 'cannot find the carry-over functions in the source: ' + ', '.join(missing),
+                      {'kind': 'translator-failed', 'missing': missing}, found_input=False)
+        return None
+    return throws, limits, consts
+
+
+def write_exits_lean(ex):
+    def lst(xs):
+        if not xs:
+            return '[]'
+        return '[\n' + ',\n'.join('  ("%s", "%s")' % x for x in xs) + ']'
+    throws, limits, consts = ex
+    lines = ['/- GENERATED by tools/props/c06.py from /repo/include on every run (anchored source-text extraction over the',
+             '   bodies of the carry-over functions: line_by_line, the PBFParser input-buffer functions,',
+             '   O5mParser::ensure_bytes_available, XMLParser::run) — do not edit.  Core-only. -/',
+             'namespace Osmium.Generated.C06Exits', '',
+             '/-- every `throw` in a carry-over function: (function, exception class) in source order -/',
+             'def throwSites : List (String × String) := ' + lst(throws), '',
+             '/-- every named limit (`max_…`, `…limit…`) a carry-over function mentions -/',
+             'def limits : List (String × String) := ' + lst(limits), '',
+             '/-- every numeric constant other than 0 and 1 in a carry-over function -/',
+             'def constants : List (String × String) := ' + lst(consts), '',
+             'end Osmium.Generated.C06Exits', '']
+    vlib.write_if_changed(os.path.join(vlib.LEAN, 'Osmium', 'Generated', 'C06Exits.lean'), '\n'.join(lines))
+
+
+# ==================================================================== long records
+KI = 1024
+MI = 1024 * 1024
+FNV_OFFSET = 1469598103934665603       # the harness's constant (harness/c06.cpp `fnv`)
+FNV_PRIME = 1099511628211
+M64 = (1 << 64) - 1
+_fnv_cache = {}
+
+
+def fnv(data):
+    h = _fnv_cache.get(data)
+    if h is None:
+        h = FNV_OFFSET
+        for b in data:
+            h = ((h ^ b) * FNV_PRIME) & M64
+        if len(data) > 64:
+            _fnv_cache[data] = h
+    return h
+
+
+def dig(data):
+    return '%d:%d' % (len(data), fnv(data))
+
+
+def opl_long_way(wid, L):
+    """a legal OPL way line of exactly L bytes (no line end): ~L/9 node refs"""
+    head = b'w%d v1 dV c1 t2020-01-01T00:00:00Z i1 uu Thighway=x N' % wid
+    body_len = L - len(head)
+    assert body_len >= 8
+    k = (body_len + 1) // 9            # k refs `n1234567` joined by commas = 9k - 1 bytes
+    extra = (body_len + 1) % 9         # absorbed by the last ref (more digits)
+    parts = []
+    per_block = 1024
+    tail_block = b','.join(b'n%d' % (1000000 + (i * 7919) % 8999999) for i in range(1, per_block))
+    nblocks, rem = divmod(k - 1, per_block)
+    for bi in range(nblocks):
+        parts.append(b'n%d,' % (2000000 + bi) + tail_block)
+    if rem:
+        parts.append(b','.join(b'n%d' % (3000000 + i) for i in range(rem)))
+    parts.append(b'n1' + b'0' * (6 + extra))
+    line = head + b','.join(parts)
+    assert len(line) == L, (len(line), L)
+    return line
+
+
+def opl_long_file(spec):
+    """spec: {'fmt':'opl','len':L,'pre':approx prefix bytes,'term':'n'|'rn'|'r'|'eof','post':number of lines after}
+    -> (bytes, record start, record end (incl. terminator), list of expected lines)"""
+    lines = []
+    out = bytearray()
+    i = 0
+    while len(out) < spec['pre']:
+        i += 1
+        l = b'n%d v1 dV c1 t2020-01-01T00:00:00Z i1 uu Tname=p%d x1.%d y2.%d' % (i, i, i % 97, i % 89)
+        lines.append(l)
+        out += l + (b'\r\n' if i % 5 == 0 else b'\n')
+    start = len(out)
+    long_line = opl_long_way(1000000 + i, spec['len'])
+    lines.append(long_line)
+    out += long_line
+    term = {'n': b'\n', 'rn': b'\r\n', 'r': b'\r', 'eof': b''}[spec['term']]
+    out += term
+    end = len(out)
+    if spec['term'] != 'eof':
+        for j in range(spec.get('post', 2)):
+            l = b'n%d v1 dV c1 t2020-01-01T00:00:00Z i1 uu T x3 y4' % (2000000 + j)
+            lines.append(l)
+            out += l + b'\n'
+    return bytes(out), start, end, lines
+
+
+def o5m_long_file(spec):
+    """independent o5m encoder: a few nodes, ONE way whose dataset has ~len payload bytes, a small way.
+    -> (bytes, script, record start, record end)"""
+    out = bytearray(b'\xff\xe0\x04o5m2')
+    script = ['e7', 'a7']
+    pos = {}
+
+    def dataset(t, payload, mark=False):
+        nonlocal out
+        ln = varint(len(payload))
+        if mark:
+            pos['start'] = len(out)
+        out += bytes([t]) + ln + payload
+        if mark:
+            pos['end'] = len(out)
+        script.extend(['e1', 'a1', 'e10', 'a%d' % len(ln), 'e%d' % len(payload), 'a%d' % len(payload)])
+
+    last = 0
+    lon = lat = 0
+    for i in range(spec.get('nodes', 3)):
+        nid = last + 1 + (i * 3) % 5
+        p = zz(nid - last) + b'\x00' + zz(100 * i - lon) + zz(7 * i - lat) + b'\x00k\x00v\x00'
+        last, lon, lat = nid, 100 * i, 7 * i
+        dataset(0x10, p)
+    # refs: deltas cycle through values that need 1..5 varint bytes
+    deltas = [1, -1, 300, -70000, 1 << 21, -(1 << 28), 5, 1 << 34]
+    enc = [zz(d) for d in deltas]
+    cyc = b''.join(enc)
+    n = spec['len'] // len(cyc)
+    refs = cyc * n
+    refs += b''.join(enc[:(spec['len'] - len(refs)) // 2])
+    p = zz(7) + b'\x00' + varint(len(refs)) + refs + b'\x00highway\x00x\x00'
+    dataset(0x11, p, mark=True)
+    dataset(0x11, zz(1) + b'\x00' + varint(2) + zz(1) + zz(1))
+    out += b'\xfe'
+    script.extend(['e1', 'a1', 'e1'])
+    return bytes(out), script, pos['start'], pos['end']
+
+
+def pbf_frames_py(data):
+    """(start, end) of every BlobHeader+Blob frame"""
+    frames = []
+    p = 0
+    while p + 4 <= len(data):
+        hl = int.from_bytes(data[p:p + 4], 'big')
+        hdr = data[p + 4:p + 4 + hl]
+        # datasize = field 3 varint
+        q = 0
+        ds = None
+        while q < len(hdr):
+            key = hdr[q]
+            q += 1
+            if key & 7 == 2:
+                ln = 0
+                sh = 0
+                while True:
+                    b = hdr[q]
+                    q += 1
+                    ln |= (b & 0x7f) << sh
+                    sh += 7
+                    if b < 0x80:
+                        break
+                q += ln
+            else:
+                v = 0
+                sh = 0
+                while True:
+                    b = hdr[q]
+                    q += 1
+                    v |= (b & 0x7f) << sh
+                    sh += 7
+                    if b < 0x80:
+                        break
+                if key >> 3 == 3:
+                    ds = v
+        if ds is None:
+            break
+        frames.append((p, p + 4 + hl + ds))
+        p += 4 + hl + ds
+    return frames
+
+
+def cuts_in(cuts, n, s, e):
+    """number of pieces the byte range [s, e) of an n-byte stream spans under the segmentation `cuts`"""
+    if cuts == '-':
+        return 1
+    if cuts.startswith('%'):
+        k, _, o = cuts[1:].partition('+')
+        k = int(k)
+        first = int(o) if o and int(o) > 0 else k
+        # cuts c = first + i*k, s < c < min(e, n)
+        hi = min(e, n)
+        if hi - 1 < first:
+            return 1
+        upto = (hi - 1 - first) // k + 1                       # cuts <= hi - 1
+        below = 0 if s < first else (s - first) // k + 1       # cuts <= s
+        return 1 + max(0, upto - below)
+    return 1 + sum(1 for c in map(int, cuts.split(',')) if s < c < min(e, n))
+
+
+def len_class(L):
+    if L < 64 * KI:
+        return '<64Ki'
+    if L <= 64 * KI + 1:
+        return '64Ki(+1)'
+    if L < MI:
+        return '64Ki..1Mi'
+    if L == MI:
+        return '1Mi'
+    if L == MI + 1:
+        return '1Mi+1'
+    if L < 2 * MI:
+        return '1Mi..2Mi'
+    if L < 4 * MI:
+        return '2Mi..4Mi'
+    return '>=4Mi'
+
+
+def pieces_class(k):
+    if k <= 3:
+        return str(k)
+    if k <= 16:
+        return '4-16'
+    if k <= 256:
+        return '17-256'
+    if k <= 4096:
+        return '257-4096'
+    return '>4096'
+
+
+STD_PIECES = ['%7', '%100', '%4096', '%10240', '%65536', '%1000000', '%1048576']
+
+
+def write_long(spec, path, hbin=None, scratch=None):
+    """build the file of a spec; returns dict(path, size, start, end, fmt, extra...) (None if it could not be built)"""
+    fmt = spec['fmt']
+    info = {'fmt': fmt, 'spec': spec, 'path': path}
+    if fmt == 'opl':
+        data, s, e, lines = opl_long_file(spec)
+        info['lines'] = lines
+    elif fmt == 'o5m':
+        data, script, s, e = o5m_long_file(spec)
+        info['script'] = script
+    else:
+        # pbf / xml: the real Writer (harness op genfile)
+        rc, so, se = vlib.sh([hbin, scratch], input='genfile %s %s %d %d %s\n' % (fmt, spec['kind'], spec['n'], spec.get('seed', 1), path))
+        if rc != 0 or not so.startswith('ok '):
+            return None
+        with open(path, 'rb') as f:
+            data = f.read()
+        if fmt == 'pbf':
+            fr = pbf_frames_py(data)
+            s, e = max(fr, key=lambda t: t[1] - t[0])
+        else:
+            tag = b'<way id="10"' if spec['kind'] == 'way' else b'<relation id="20"'
+            close = b'</way>' if spec['kind'] == 'way' else b'</relation>'
+            s = data.find(tag)
+            e = data.find(close, s) + len(close)
+    if 'trunc' in spec:
+        # cut the file inside the long record (per mille of the record)
+        data = data[:s + (e - s) * spec['trunc'] // 1000]
+        e = len(data)
+        if fmt == 'opl':
+            # lines as the spec oracle sees them
+            info['lines'] = [l for l in data.replace(b'\r', b'\n').split(b'\n') if l]
+    if fmt in ('opl', 'o5m') or 'trunc' in spec:
+        with open(path, 'wb') as f:
+            f.write(data)
+    info.update(size=len(data), start=s, end=e)
+    # length of the record itself (an OPL line without its line end)
+    info['reclen'] = (min(spec['len'], e - s) if fmt == 'opl' else e - s)
+    return info
+
+
+def _long_records(ctx, rng, quick, hbin, scratch):
+    # ---------------------------------------------------------------- specs
+    specs = []
+    if quick:
+        lens = [64 * KI, MI, MI + 1, 1363149, 2 * MI]
+    else:
+        lens = [64 * KI - 1, 64 * KI, 64 * KI + 1, 300000, MI - 1, MI, MI + 1, MI + 2, 1200000, 1363149, 2 * MI - 1, 2 * MI, 2 * MI + 1,
+                3 * MI + 17, 4 * MI, 4 * MI + 4097, 5 * MI + 3] + [MI + 2 + rng.below(3 * MI) for _ in range(4)]
+    terms = ['n', 'rn', 'eof', 'r']
+    for i, L in enumerate(lens):
+        pre = [0, 30, 900000, 5000, 70000, 1048000][(i + rng.below(6)) % 6] if not quick or i != 0 else 0
+        specs.append({'fmt': 'opl', 'len': L, 'pre': pre, 'term': terms[(i + rng.below(2)) % 4], 'post': 1 + rng.below(3)})
+    specs.append({'fmt': 'opl', 'len': 1363149, 'pre': 900000, 'term': 'n', 'post': 2, 'trunc': 300 + rng.below(600)})
+    if not quick:
+        specs.append({'fmt': 'opl', 'len': 2 * MI + 5, 'pre': 17, 'term': 'n', 'post': 2, 'trunc': 990})
+    for L in ([1200000] if quick else [70000, MI + 1, 1300000, 2 * MI + 3, 4 * MI + 100]):
+        specs.append({'fmt': 'o5m', 'len': L, 'nodes': 1 + rng.below(5)})
+    if not quick:
+        specs.append({'fmt': 'o5m', 'len': 1100000, 'nodes': 2, 'trunc': 100 + rng.below(800)})
+    for (kind, n) in ([('way', 200000)] if quick else [('way', 200000), ('rel', 200000), ('way', 400000), ('way', 720000), ('rel', 12000)]):
+        specs.append({'fmt': 'pbf', 'kind': kind, 'n': n, 'seed': 1 + rng.below(1000)})
+    specs.append({'fmt': 'pbf', 'kind': 'way', 'n': 190000, 'seed': 1 + rng.below(1000), 'trunc': 100 + rng.below(800)})
+    for (kind, n) in ([('way', 40000)] if quick else [('way', 40000), ('way', 200000), ('rel', 60000)]):
+        specs.append({'fmt': 'xml', 'kind': kind, 'n': n, 'seed': 1 + rng.below(1000)})
+    if not quick:
+        specs.append({'fmt': 'xml', 'kind': 'way', 'n': 38000, 'seed': 1 + rng.below(1000), 'trunc': 100 + rng.below(800)})
+
+    # ---------------------------------------------------------------- files and ops
+    ops = []      # (op, info, cuts)  model-vs-impl (oplx / pbfx / o5mx)
+    mon = []      # (op, info, cuts)  Reader monitor (reader / fifo / file)
+    infos = []
+    for i, spec in enumerate(specs):
+        path = os.path.join(scratch, 'long%d.%s' % (i, spec['fmt']))
+        info = write_long(spec, path, hbin, scratch)
+        if info is None:
+            ctx.violation('gen-failed:long:' + spec['fmt'], 'the real Writer failed to produce the long-record file %s' % json.dumps(spec),
+                          {'kind': 'harness', 'spec': spec}, found_input=False)
+            continue
+        infos.append(info)
+        fmt, n, s, e = info['fmt'], info['size'], info['start'], info['end']
+        rec = e - s
+        pieces = list(STD_PIECES)
+        # shifted grids: the record starts / ends at other places of a piece
+        for _ in range(2 if quick else 5):
+            k = rng.choice([4096, 10240, 65536, 1000000, MI, 1 + rng.below(2 * MI)])
+            pieces.append('%%%d+%d' % (k, 1 + rng.below(k)))
+        # a piece boundary exactly at the start / one byte into the record, then 1 MiB pieces
+        if s > 0:
+            pieces.append('%%%d+%d' % (MI, s))
+        pieces.append('%%%d+%d' % (MI, s + 1))
+        # two / three explicit cuts inside the record: record spans exactly 3 (4) pieces, the middle one(s) of any size
+        if rec > 10:
+            c1 = s + 1 + rng.below(rec // 2)
+            c2 = c1 + 1 + rng.below(e - c1 - 1) if e - c1 > 2 else c1 + 1
+            pieces.append('%d,%d' % (c1, c2))
+            pieces.append(','.join(map(str, sorted({s + 1 + rng.below(rec - 1) for _ in range(3)}))))
+        if quick:
+            # a handful per file: one piece, three of the standard sizes (rotating, so that every size occurs on
+            # some file; 7-byte pieces on one OPL file only), one shifted grid, the boundary one byte into
+            # the record, two explicit cuts inside the record
+            std = [STD_PIECES[(i + j) % len(STD_PIECES)] for j in (1, 3, 5)]
+            if fmt == 'opl' and i == 3:
+                std.append('%7')
+            pieces = [p for p in pieces if (p in std) or (p not in STD_PIECES)]
+            pieces = [p for p in pieces if p != '%7' or (fmt == 'opl' and i == 3)]
+        xop = {'opl': 'oplx', 'pbf': 'pbfx', 'o5m': 'o5mx'}.get(fmt)
+        for c in ['-'] + pieces:
+            if xop == 'o5mx':
+                ops.append(('o5mx %s %s @%s' % (c, ','.join(info['script']), path), info, c))
+            elif xop:
+                ops.append(('%s %s @%s' % (xop, c, path), info, c))
+            if c == '%7' and n > 3 * MI:
+                continue                                       # > 400000 queue items per run: keep for the direct ops only
+            mon.append(('reader %s %s @%s' % (fmt, c, path), info, c))
+        mon.append(('fifo %s - @%s' % (fmt, path), info, '%65536'))          # pipe: read(2) returns at most 64 KiB
+        if not quick:
+            mon.append(('fifo %s %%300000 @%s' % (fmt, path), info, '%65536'))
+        mon.append(('file %s @%s' % (fmt, path), info, '%1048576'))          # plain file: default input_buffer_size reads
+
+    for op, info, c in ops + mon:
+        w = op.split()
+        generic = ' '.join(x for x in w if not x.startswith('@')) + ' ' + json.dumps(info['spec'], sort_keys=True)
+        ctx.note_case(generic, nontrivial=(c != '-'))
+        ctx.count('op:long-%s%s' % (w[0], '-' + w[1] if w[0] in ('reader', 'fifo', 'file') else ''))
+        k = cuts_in(c, info['size'], info['start'], info['end'])
+        ctx.count('long:%s:record=%s:pieces=%s' % (info['fmt'], len_class(info['reclen']), pieces_class(k)))
+    if ops:
+        ctx.sample(ops[len(ops) // 3][0].split('@')[0] + json.dumps(ops[len(ops) // 3][1]['spec'], sort_keys=True))
+
+    def replay_of(info, oplist):
+        return {'kind': 'counterexample', 'spec': info['spec'], 'ops': [o.replace(info['path'], '<file>') for o in oplist],
+                'replay': "python3 tools/props/c06.py regen '%s' /verif/.build/c06-replay.bin ; then feed the op lines (with <file> = that path) to the c06 harness"
+                          % json.dumps(info['spec'], sort_keys=True)}
+
+    def short(op, info):
+        return op.replace('@' + info['path'], '@<%s>' % json.dumps(info['spec'], sort_keys=True))
+
+    # ---------------------------------------------------------------- run
+    import time
+    t0 = time.time()
+    text = '\n'.join(o for o, _, _ in ops) + '\n'
+    rc, impl, se = ctx.run_lines([hbin, scratch], text)
+    if rc != 0 or len(impl) != len(ops):
+        ctx.violation('harness-crash', 'harness exited %d on the long-record ops: %s' % (rc, se[-500:]), {'kind': 'harness-crash', 'stderr': se[-2000:]}, found_input=False)
+        return
+    model = None
+    if ctx.exe_build_ok:
+        rc, model, se = ctx.run_lines([ctx.model_exe('model_c06')], text)
+        if rc != 0:
+            ctx.violation('model-crash', 'model driver exited %d on the long-record ops: %s' % (rc, se[-300:]), {'kind': 'broken-correspondence', 'stderr': se[-2000:]}, found_input=False)
+            model = None
+    t1 = time.time()
+    mon_text = '\n'.join(o for o, _, _ in mon) + '\n'
+    rc, mon_out, se = ctx.run_lines([hbin, scratch], mon_text)
+    ctx.extra['long_records'] = {'files': len(infos), 'direct_ops': len(ops), 'reader_ops': len(mon), 'direct_ops_impl_and_model_s': round(t1 - t0, 1), 'reader_monitor_s': round(time.time() - t1, 1)}
+    if rc != 0 or len(mon_out) != len(mon):
+        ctx.violation('harness-crash', 'harness exited %d in the long-record reader monitor: %s' % (rc, se[-500:]), {'kind': 'harness-crash', 'stderr': se[-2000:]}, found_input=False)
+        return
+
+    # ---------------------------------------------------------------- monitor 1: the carry-over functions themselves, impl only
+    found = False
+    by_file = {}
+    for (op, info, c), out in zip(ops, impl):
+        by_file.setdefault(info['path'], []).append((op, info, c, out))
+        ctx.count('result:long-%s:%s' % (op.split()[0], 'err' if 'err:' in out or out.startswith('exception') else 'ok'))
+    for path, rs in by_file.items():
+        ref_op, info, _, ref = rs[0]
+        key = '%s-carry-over-chunk-dependent:record=%s' % (info['fmt'], len_class(info['reclen']))
+        if info['fmt'] == 'o5m':
+            # the window after each step depends on the pieces (what has been pulled in so far) — compare
+            # the ensure results and, where the script has just ensured a payload, nothing else; the strict
+            # comparison for o5m is the Reader monitor and the model equality below
+            def proj(o):
+                return [x.split(':')[0] for x in o.split()]
+        else:
+            def proj(o):
+                return o
+        dep = False
+        for op, _, c, out in rs[1:]:
+            if proj(out) != proj(ref):
+                found = dep = True
+                ctx.violation(key, 'the result of the real %s depends on the segmentation for a %d-byte %s stream with a %d-byte record at offset %d: `%s` -> %s but `%s` -> %s'
+                              % ({'opl': 'line_by_line()', 'pbf': 'PBFParser framing', 'o5m': 'O5mParser::ensure_bytes_available'}[info['fmt']],
+                                 info['size'], info['fmt'], info['end'] - info['start'], info['start'], short(ref_op, info)[:300], ref[:200], short(op, info)[:300], out[:200]),
+                              replay_of(info, [ref_op, op]))
+                break
+        if info['fmt'] == 'opl' and not dep:
+            # independent spec oracle: the non-empty lines of the byte stream
+            want = ' '.join(['L', str(len(info['lines']))] + [dig(l) for l in info['lines']])
+            for op, _, c, out in rs:
+                if out != want:
+                    found = True
+                    ctx.violation('opl-lines-wrong:record=%s' % len_class(info['reclen']),
+                                  'line_by_line() does not deliver the lines of the input (%d-byte line at offset %d): `%s` -> %s, expected %s'
+                                  % (info['end'] - info['start'], info['start'], short(op, info)[:300], out[:200], want[:200]), replay_of(info, [op]))
+                    break
+
+    # ---------------------------------------------------------------- monitor 2: the whole Reader
+    groups = {}
+    for (op, info, c), out in zip(mon, mon_out):
+        groups.setdefault(info['path'], []).append((op, info, out))
+        ctx.count('reader-result:long-%s:%s' % (info['fmt'], out.split(':')[0].split()[0]))
+    for path, rs in groups.items():
+        ref_op, info, ref = rs[0]
+        dep = False
+        for op, _, out in rs[1:]:
+            if not op.startswith('reader ') and out.startswith('err:') and ref.startswith('err:') and out.split(':')[1] == ref.split(':')[1]:
+                continue                  # fd paths word some errors differently: same exception class
+            if out != ref:
+                found = dep = True
+                ctx.violation('%s-chunk-dependent:long-record=%s' % (info['fmt'], len_class(info['reclen'])),
+                              'Reader result depends on chunking for a %d-byte %s stream with a %d-byte record at offset %d: `%s` -> %s but `%s` -> %s'
+                              % (info['size'], info['fmt'], info['end'] - info['start'], info['start'], short(ref_op, info)[:300], ref, short(op, info)[:300], out),
+                              replay_of(info, [ref_op, op]))
+                break
+        if 'trunc' not in info['spec'] and not dep:
+            bad = [(op, out) for op, _, out in rs if not out.startswith('ok ')]
+            want_n = len(info['lines']) if info['fmt'] == 'opl' else None
+            if not bad and want_n is not None:
+                bad = [(op, out) for op, _, out in rs if not out.startswith('ok n=%d ' % want_n)]
+            if bad:
+                found = True
+                ctx.violation('%s-long-record-rejected:record=%s' % (info['fmt'], len_class(info['reclen'])),
+                              'a valid %s file with a %d-byte record is not read completely: `%s` -> %s'
+                              % (info['fmt'], info['end'] - info['start'], short(bad[0][0], info)[:300], bad[0][1]), replay_of(info, [bad[0][0]]))
+
+    # ---------------------------------------------------------------- correspondence
+    if model is not None:
+        dis = ctx.diff_streams('c06-long-model-vs-impl', [short(o, i) for o, i, _ in ops], impl, model)
+        if dis and not found:
+            i, op, a, b = dis[0]
+            ctx.violation('correspondence:long-' + op.split()[0], 'model and implementation disagree on long records (%d lines; first `%s`: impl=%s model=%s); no chunk-dependence was observed'
+                          % (len(dis), op[:300], a[:160], b[:160]),
+                          {'kind': 'broken-correspondence', 'stream': 'c06-long-model-vs-impl', 'first': dis[:5]}, found_input=False)
+
+
+if __name__ == '__main__':
+    if len(sys.argv) == 4 and sys.argv[1] == 'regen':
+        spec = json.loads(sys.argv[2])
+        hb = None
+        if spec['fmt'] in ('pbf', 'xml'):
+            hb, err = vlib.build_cpp('c06', ['c06.cpp'], flags=['-fno-access-control'])
+        r = write_long(spec, os.path.abspath(sys.argv[3]), hb, os.path.dirname(os.path.abspath(sys.argv[3])))
+        print(json.dumps({k: v for k, v in r.items() if k in ('path', 'size', 'start', 'end', 'script')}))
+    else:
+        print("usage: c06.py regen '<spec json>' <out file>")
